@@ -412,7 +412,7 @@ theorem processEdge_snd (diffs : Diffs) (c : Nat) (cur : LineMap) (st : AState) 
     (processEdge diffs c cur st e).2 =
       { orig := assign st.orig false e.target (newParentMap diffs c cur st e),
         srcs := setSrc st.srcs e.target (newParentMap diffs c cur st e),
-        unresolved := st.unresolved + 1 } ∨
+        unresolved := countRoot st e } ∨
     (processEdge diffs c cur st e).2 =
       { st with srcs := setSrc st.srcs e.target (newParentMap diffs c cur st e) } := by
   by_cases h1 : (newParentMap diffs c cur st e).isEmpty = true
